@@ -1,5 +1,5 @@
 From Coq Require Import Permutation.
-From QV Require Import model.Base gen.GenUigen model.Uigen proofs.UigenProofs props.C04.
+From QV Require Import model.Base gen.GenUigen model.Uigen proofs.UigenProofs model.Driver proofs.DriverProofs props.C04.
 Open Scope string_scope.
 Check (C04_form_is_the_placed_bindings : forall m o, Permutation (r_form (run m o)) (flat_map (fate_form o) (o_props o))).
 Check (C04_header_is_the_dynamic_bindings : forall o, Permutation (r_bindings (run Generate o)) (flat_map (fate_header o) (o_props o))).
@@ -24,3 +24,11 @@ Check (eq_refl : role_of {| o_kind := OWidget false false false; o_ctx := CtxOth
 Check (eq_refl : role_of {| o_kind := OLayout true; o_ctx := CtxOther; o_props := []; o_callbacks := []; o_attached := [] |} "columns" = RSpecialEval).
 Check (eq_refl : attached_consumed CtxVBox ALayout "row" = false).
 Check (eq_refl : attached_consumed CtxGrid ALayout "row" = true).
+Check (C04_exit_status_zero_iff_no_source_has_errors : forall (out : Type) (vs : list (verdict out)),
+  snd (run_sources out vs) = negb (List.existsb (is_error out) vs)).
+Check (C04_an_error_in_any_source_fails_the_command : forall (out : Type) (a b : list (verdict out)), snd (run_sources out (a ++ HasErrors :: b)) = false).
+Check (C04_nothing_is_written_from_the_faulty_source_on : forall (out : Type) (a b : list (verdict out)),
+  fst (run_sources out (a ++ HasErrors :: b)) = outputs_before_first_error out a).
+Check (C04_accepted_sources_are_all_written : forall (out : Type) (os : list out), run_sources out (List.map Translated os) = (os, true)).
+Check (eq_refl : run_sources nat [Translated 1; HasErrors; Translated 2] = ([1], false)).
+Check (eq_refl : is_error nat = fun v => match v with HasErrors => true | _ => false end).
